@@ -61,7 +61,7 @@ CLAIMED.update({
         ref='5/C14'),
     'C19': dict(
         text='Whole-view contracts on the list operations get/set/remove_element_at (every slot of the element array is constrained), proved for all lists '
-             'up to MAXL slots with the shift loop closed by an invariant; insert_element_at and tables/packets are pending.',
+             'up to MAXL slots with the shift loop closed by an invariant; insert_element_at (growth by realloc, failure leaves the list unchanged) by a bounded job; tables/packets (uthash) are not decided.',
         note='Trusted: CBMC; abstract contracts of clone/create/free/clean as callees.', ref='5/C19'),
 })
 
@@ -73,7 +73,7 @@ CLAIMED.update({
         note='Trusted: CBMC; models of u_fprintf/u_fputc. One job is a bounded stand-in and is listed as such in the evidence.', ref='5/C13'),
     'C17': dict(
         text='Allocating functions under contract re-verified with --malloc-may-fail --malloc-fail-null --memory-leak-check: cif_unicode_normalize '
-             '(all three allocation sites incl. the retry and the terminator realloc) and cif_buf_write: documented error code, outputs untouched, '
+             '(all three allocation sites incl. the retry and the terminator realloc), cif_buf_write and (bounded) cif_value_insert_element_at with a failing growth reallocation: documented error code, outputs untouched, '
              'no leak, no invalid free, no out-of-bounds write on any failure path.',
         note='Scope = the functions listed in the evidence; allocations inside SQLite/ICU are not decided.', ref='5/C17'),
 })
